@@ -341,6 +341,157 @@ Proof. intros HT Hin Hf Hag. rewrite !(invoke_refines fixed G order id f _ HT Hi
       unfold closure_names. apply (own_in_closure G order id Hin). unfold own_names. rewrite E. right. exact Hp. }
     rewrite Hps. reflexivity.
   - rewrite R. reflexivity. Qed.
+
+(* ---------- the Spec is a fixed point of the closure body ---------- *)
+Theorem table_fixpoint fixed G order id k inp out : topo_ok G order = true -> In id order ->
+  spec_step eval fixed G order k id inp out = body eval fixed G (spec_step eval fixed G order) k id inp out.
+Proof. intros HT Hin.
+  rewrite <- (refines fixed G order id (S (length order)) k inp out HT Hin (Nat.le_succ_diag_r _)). cbn [run]. apply body_ext.
+  intros r Hr k' inp' out'. destruct (in_dec N.eq_dec r order) as [Hi|Hni].
+  - apply refines; [exact HT | exact Hi | apply le_n].
+  - destruct (Topo_refs G order (topo_ok_Topo _ _ HT) id Hin r Hr) as [Hi|Hnone]; [contradiction|].
+    rewrite run_missing; [|exact Hnone]. unfold spec_step, tstep. rewrite tfind_notin; [reflexivity | rewrite keys_build; exact Hni]. Qed.
+
+(* ---------- what the logic of a decision sees (the first sentence of the property) ---------- *)
+Lemma lookup_set n k v e : lookup n (set k v e) = if N.eqb n k then Some v else lookup n e.
+Proof. induction e as [|[k' x] r IH]; cbn [set lookup]; [reflexivity|].
+  destruct (N.eqb k k') eqn:E; cbn [lookup].
+  - apply N.eqb_eq in E. subst k'. destruct (N.eqb n k); reflexivity.
+  - rewrite IH. destruct (N.eqb n k') eqn:E2; [|reflexivity]. apply N.eqb_eq in E2. subst k'.
+    destruct (N.eqb n k) eqn:E3; [|reflexivity]. apply N.eqb_eq in E3. subst k. rewrite N.eqb_refl in E. discriminate. Qed.
+
+(* zip: the last binding of a name in `other` wins, else self's *)
+Lemma lookup_zip n : forall other self,
+  lookup n (zip self other) = match lookup n (rev other) with Some v => Some v | None => lookup n self end.
+Proof. unfold zip. induction other as [|[k v] r IH] using rev_ind; intros self; [reflexivity|].
+  rewrite fold_left_app, rev_app_distr. cbn [fold_left rev app lookup fst snd]. rewrite lookup_set.
+  destruct (N.eqb n k); [reflexivity | apply IH]. Qed.
+
+Lemma lookup_overwrite n self other :
+  lookup n (overwrite self other) =
+  match lookup n self with
+  | Some v => Some (match lookup n other with Some v' => v' | None => v end)
+  | None => None
+  end.
+Proof. unfold overwrite. induction self as [|[k v] r IH]; [reflexivity|]. cbn [map fst lookup].
+  destruct (lookup k other) as [v'|] eqn:E; cbn [lookup fst]; destruct (N.eqb n k) eqn:E2; try exact IH.
+  - apply N.eqb_eq in E2. subst k. rewrite E. reflexivity.
+  - apply N.eqb_eq in E2. subst k. rewrite E. reflexivity. Qed.
+
+Lemma lookup_inputs_into G ids inp n :
+  lookup n (inputs_into G ids inp []) = if mem n (input_names G ids) then Some (getv n inp) else None.
+Proof. unfold inputs_into. generalize (input_names G ids). intros l.
+  assert (H : forall acc, lookup n (fold_left (fun a nm => set nm (getv nm inp) a) l acc) = if mem n l then Some (getv n inp) else lookup n acc).
+  { induction l as [|x r IH]; intros acc; [reflexivity|]. cbn [fold_left]. rewrite IH. unfold mem. cbn [existsb].
+    fold (mem n r). destruct (mem n r); [rewrite orb_true_r; reflexivity|]. rewrite orb_false_r, lookup_set.
+    destruct (N.eqb n x) eqn:E; [apply N.eqb_eq in E; subst; reflexivity | reflexivity]. }
+  rewrite H. reflexivity. Qed.
+
+(* the bindings contributed by the required decisions: each decision's variable bound to that decision's own value *)
+Definition dec_binds (G : graph) (step : kind -> N -> env -> env -> env) (rd : list N) (inp : env) : env :=
+  flat_map (fun d => match find d G with
+                     | Some (NDec dn _ _ _ _ _) => [(dn, getv dn (step KDec d inp []))]
+                     | _ => [] end) rd.
+(* the knowledge context: the function values of the required knowledge models (and theirs), then of the required services *)
+Definition knowledge_ctx (G : graph) (step : kind -> N -> env -> env -> env) (rk : list N) (inp : env) : env :=
+  fold_left (fun acc s => svc_fn G s acc) rk (fold_left (fun acc b => step KBkm b inp acc) rk []).
+
+Lemma fold_decisions fixed G order rd inp : topo_ok G order = true ->
+  (forall d, In d rd -> In d order \/ find d G = None) -> forall acc,
+  fold_left (fun a d => spec_step eval fixed G order KDec d inp a) rd acc = zip acc (dec_binds G (spec_step eval fixed G order) rd inp).
+Proof. intros HT H. induction rd as [|d r IH]; intros acc; [reflexivity|]. cbn [fold_left]. rewrite IH; [|intros x Hx; apply H; right; exact Hx].
+  unfold dec_binds at 2. cbn [flat_map]. fold (dec_binds G (spec_step eval fixed G order) r inp). unfold zip at 2. rewrite fold_left_app.
+  fold (zip (fold_left (fun acc0 kv => set (fst kv) (snd kv) acc0)
+     match find d G with Some (NDec dn _ _ _ _ _) => [(dn, getv dn (spec_step eval fixed G order KDec d inp []))] | _ => [] end acc)
+     (dec_binds G (spec_step eval fixed G order) r inp)).
+  f_equal. destruct (in_dec N.eq_dec d order) as [Hi|Hni].
+  - rewrite (table_fixpoint fixed G order d KDec inp acc HT Hi), (table_fixpoint fixed G order d KDec inp [] HT Hi). unfold body.
+    destruct (find d G) as [[name|name logic rk rd' ri callable|name ps b rk callable|name ins indecs encs outs]|]; try reflexivity.
+    cbv zeta. unfold getv. rewrite lookup_set_same. reflexivity.
+  - destruct (H d (or_introl eq_refl)) as [Hi|Hnone]; [contradiction|]. rewrite Hnone.
+    unfold spec_step, tstep. rewrite tfind_notin; [reflexivity | rewrite keys_build; exact Hni]. Qed.
+
+(* The scope in which the logic of a decision is evaluated: its required inputs, overlaid with the knowledge context overlaid
+   with the required decisions' own values, where an input entry of the same name replaces a knowledge / decision binding. *)
+Theorem decision_scope fixed G order id name logic rk rd ri callable inp out : topo_ok G order = true -> In id order ->
+  find id G = Some (NDec name logic rk rd ri callable) ->
+  let step := spec_step eval fixed G order in
+  step KDec id inp out =
+  set name (eval (svc_call G step callable)
+                 (zip (inputs_into G ri inp []) (overwrite (zip (knowledge_ctx G step rk inp) (dec_binds G step rd inp)) inp)) logic) out.
+Proof. intros HT Hin E step. unfold step. rewrite (table_fixpoint fixed G order id KDec inp out HT Hin). unfold body at 1. rewrite E. cbv zeta.
+  rewrite (fold_decisions fixed G order rd inp HT); [reflexivity|].
+  intros d Hd. apply (Topo_refs G order (topo_ok_Topo _ _ HT) id Hin). unfold refs. rewrite E. apply in_or_app. right. apply in_or_app. left. exact Hd. Qed.
+
+(* contexts built by set_entry have distinct names *)
+Lemma nodup_set k v e : NoDup (map fst e) -> NoDup (map fst (set k v e)).
+Proof. induction e as [|[k' x] r IH]; intros H; cbn [set]; [constructor; [intros []|constructor]|].
+  destruct (N.eqb k k') eqn:E; [exact H|]. cbn [map fst] in *. inversion H as [|? ? Hn Hr]; subst. constructor; [|apply IH; exact Hr].
+  intro Hin. apply keys_set in Hin. destruct Hin as [<-|Hin]; [rewrite N.eqb_refl in E; discriminate | contradiction]. Qed.
+
+Lemma nodup_fold {A} (step : env -> A -> env) (l : list A) : (forall a x, In x l -> NoDup (map fst a) -> NoDup (map fst (step a x))) ->
+  forall acc, NoDup (map fst acc) -> NoDup (map fst (fold_left step l acc)).
+Proof. induction l as [|x r IH]; intros H acc Ha; [exact Ha|]. cbn [fold_left]. apply IH; [intros a y Hy; apply H; right; exact Hy|].
+  apply H; [left; reflexivity | exact Ha]. Qed.
+
+Lemma nodup_zip a b : NoDup (map fst a) -> NoDup (map fst (zip a b)).
+Proof. unfold zip. apply nodup_fold. intros acc x _. apply nodup_set. Qed.
+
+Lemma keys_overwrite a b : map fst (overwrite a b) = map fst a.
+Proof. unfold overwrite. rewrite map_map. apply map_ext. intros [k v]. cbn [fst]. destruct (lookup k b); reflexivity. Qed.
+
+Lemma nodup_svc_fn G s acc : NoDup (map fst acc) -> NoDup (map fst (svc_fn G s acc)).
+Proof. unfold svc_fn. destruct (find s G) as [[| | |]|]; try (intros H; exact H). apply nodup_set. Qed.
+
+Lemma body_nodup fixed G rec k id inp out :
+  (forall r, In r (refs G id) -> forall k inp out, NoDup (map fst out) -> NoDup (map fst (rec k r inp out))) ->
+  NoDup (map fst out) -> NoDup (map fst (body eval fixed G rec k id inp out)).
+Proof. intros H Ho. unfold body. unfold refs in H.
+  destruct (find id G) as [[name|name logic rk rd ri callable|name ps b rk callable|name ins indecs encs outs]|]; destruct k; try exact Ho; cbv zeta.
+  - apply nodup_set. exact Ho.
+  - apply nodup_set. apply nodup_fold; [|exact Ho]. intros a x Hx Ha.
+    assert (Hx' : In x (rk ++ callable)) by (apply in_or_app; left; exact Hx).
+    destruct fixed; [apply nodup_svc_fn | apply H; [exact Hx'|]]; apply H; assumption.
+  - destruct (dec_names G outs) as [|n [|n2 l]]; try (apply nodup_set; exact Ho). destruct (lookup n _); [apply nodup_set|]; exact Ho. Qed.
+
+Lemma nodup_Topo fixed G o : Topo G o -> forall id k inp out, NoDup (map fst out) -> NoDup (map fst (tstep (build eval fixed G o) k id inp out)).
+Proof. induction 1 as [|o id HT IH Hn Hr]; intros id' k inp out Ho; [exact Ho|]. rewrite build_snoc.
+  destruct (in_dec N.eq_dec id' o) as [Hi|Hni].
+  - unfold tstep. rewrite tfind_app_in; [|rewrite keys_build; exact Hi]. apply IH. exact Ho.
+  - destruct (N.eq_dec id' id) as [->|Hne].
+    + unfold tstep at 1. rewrite tfind_app_new; [|rewrite keys_build; exact Hn]. apply body_nodup; [|exact Ho]. intros r _ k' inp' out'. apply IH.
+    + unfold tstep. rewrite tfind_notin; [exact Ho|]. rewrite map_app, keys_build. cbn [map fst]. intro Hin. apply in_app_or in Hin.
+      destruct Hin as [Hin|[Hin|[]]]; [contradiction | apply Hne; symmetry; exact Hin]. Qed.
+
+Lemma lookup_app n a b : lookup n (a ++ b) = match lookup n a with Some v => Some v | None => lookup n b end.
+Proof. induction a as [|[k v] r IH]; [reflexivity|]. cbn [app lookup]. destruct (N.eqb n k); [reflexivity | exact IH]. Qed.
+
+Lemma lookup_notin n e : ~ In n (map fst e) -> lookup n e = None.
+Proof. induction e as [|[k v] r IH]; intros H; [reflexivity|]. cbn [lookup]. cbn [map fst In] in H.
+  destruct (N.eqb n k) eqn:E; [apply N.eqb_eq in E; subst; exfalso; apply H; left; reflexivity|]. apply IH. intro Hin. apply H. right. exact Hin. Qed.
+
+Lemma lookup_rev_nodup n e : NoDup (map fst e) -> lookup n (rev e) = lookup n e.
+Proof. induction e as [|[k v] r IH]; intros H; [reflexivity|]. cbn [rev map fst] in *. inversion H as [|? ? Hn Hr]; subst.
+  rewrite lookup_app, (IH Hr). cbn [lookup]. destruct (N.eqb n k) eqn:E; [|destruct (lookup n r); reflexivity].
+  apply N.eqb_eq in E. subst k. rewrite (lookup_notin n r Hn). reflexivity. Qed.
+
+(* ... read name by name *)
+Theorem decision_sees fixed G order rk rd ri inp n : topo_ok G order = true ->
+  let step := spec_step eval fixed G order in
+  let kd := zip (knowledge_ctx G step rk inp) (dec_binds G step rd inp) in
+  lookup n (zip (inputs_into G ri inp []) (overwrite kd inp)) =
+  match (match lookup n (rev (dec_binds G step rd inp)) with Some v => Some v | None => lookup n (knowledge_ctx G step rk inp) end) with
+  | Some v => Some (match lookup n inp with Some v' => v' | None => v end)      (* a required decision's own value / a function value, unless the input context binds the name *)
+  | None => if mem n (input_names G ri) then Some (getv n inp) else None        (* a required input: the supplied value; anything else: unbound *)
+  end.
+Proof. intros HT step kd.
+  assert (Hkd : NoDup (map fst (overwrite kd inp))).
+  { rewrite keys_overwrite. unfold kd. apply nodup_zip. unfold knowledge_ctx. apply nodup_fold; [intros a x _; apply nodup_svc_fn|].
+    apply nodup_fold; [|constructor]. intros a x _ Ha. unfold step, spec_step. apply nodup_Topo; [apply topo_ok_Topo; exact HT | exact Ha]. }
+  rewrite lookup_zip, (lookup_rev_nodup n _ Hkd), lookup_overwrite. unfold kd at 1. rewrite lookup_zip.
+  destruct (match lookup n (rev (dec_binds G step rd inp)) with Some v => Some v | None => lookup n (knowledge_ctx G step rk inp) end); [reflexivity|].
+  apply lookup_inputs_into. Qed.
+
 End WiringProofs.
 
 (* ---------- the tiny evaluator meets the assumption ---------- *)
